@@ -335,7 +335,60 @@ fn corrupt_propset(seed: &Seed, rng: &mut Rng) -> Option<(Vec<u8>, String)> {
     Some((replace_stream(&seed.bytes, "\u{5}SummaryInformation", &ps)?, what))
 }
 
+/// Rebuilds the summary stream with one string property replaced by adversarial text.
+fn corrupt_summary_text(seed: &Seed, rng: &mut Rng) -> Option<(Vec<u8>, String)> {
+    let raw = seed.raw.summary_raw.as_ref()?;
+    let ps = crate::propset_codec::parse(raw);
+    if !ps.problems.is_empty() {
+        return None;
+    }
+    let mut props: Vec<(u32, crate::propset_codec::PVal)> = ps.props.iter().map(|(k, v)| (*k, v.1.clone())).collect();
+    let texts: [&str; 26] = [
+        "{", "}", "{}", "{é", "é}", "{34AB5C53-9B30-4E14-AEF0-2C1C7BA826Cé}", "{{34AB5C53-9B30-4E14-AEF0-2C1C7BA826C0}}", "", ";", ";;", ",", ";,", "x64;", ";1033,,9", ";-1",
+        ";99999999999", "x64;1033;1036", ";65536", "Intel;0x409", "\u{feff}", "é", "日本", "x;\u{0}", ";4294967295,65535", "{00000000-0000-0000-0000-00000000000", "a;b;c",
+    ];
+    let id = *rng.pick(&[9u32, 9, 7, 7, 2, 3, 4, 6, 18]);
+    let t = *rng.pick(&texts);
+    let val = crate::propset_codec::PVal::LpStr(t.as_bytes().to_vec());
+    match props.iter_mut().find(|p| p.0 == id) {
+        Some(p) => p.1 = val,
+        None => props.push((id, val)),
+    }
+    let bytes = crate::propset_codec::encode(&props, &crate::propset_codec::PsEncOptions::default());
+    Some((replace_stream(&seed.bytes, "\u{5}SummaryInformation", &bytes)?, format!("summary property {} := text {:?}", id, t)))
+}
+
+/// Adds a stream whose stored (raw) name is something the library itself would never write.
+fn odd_stream_name(seed: &Seed, rng: &mut Rng) -> Option<(Vec<u8>, String)> {
+    let names: [String; 12] = [
+        "\u{4840}".into(),
+        "a\u{4840}".into(),
+        "\u{4840}\u{4840}x".into(),
+        "\u{3b3f}\u{4840}\u{4836}".into(),
+        "\u{47ff}\u{4800}".into(),
+        "\u{483f}\u{4840}".into(),
+        "\u{3800}".repeat(31),
+        "\u{4840}".repeat(31),
+        "\u{5}".into(),
+        "\u{5}\u{4840}Summary".into(),
+        "\u{4841}\u{37ff}".into(),
+        "x\u{0}y".into(),
+    ];
+    let n = rng.pick(&names).clone();
+    let out = with_container(&seed.bytes, |c| {
+        let mut s = c.create_stream(format!("/{}", n))?;
+        s.write_all(b"odd")?;
+        s.flush()
+    })?;
+    Some((out, format!("extra stream with stored name {:?}", n)))
+}
+
 fn corrupt_misc(seed: &Seed, rng: &mut Rng) -> Option<(Vec<u8>, String)> {
+    match rng.below(8) {
+        4 | 5 => return odd_stream_name(seed, rng),
+        6 | 7 => return corrupt_summary_text(seed, rng),
+        _ => {}
+    }
     match rng.below(4) {
         0 => {
             let id = uuid::Uuid::from_u128(rng.next_u64() as u128);
